@@ -176,6 +176,19 @@ static void handle(size_t nw, char **w) {
 		}
 		free(id.p); free(m.p); free(sg.p); free(z); free(dg);
 	}
+	else if (!strcmp(w[0], "signpre") && nw == 2) {
+		/* sm2_fast_sign_pre_compute with scripted entropy: k,x1_modn of all 32 slots */
+		SM2_SIGN_PRE_COMP *pc = malloc(sizeof(SM2_SIGN_PRE_COMP) * SM2_SIGN_PRE_COMP_COUNT); int i; uint8_t b[32];
+		install_entropy(w[1]);
+		if (sm2_fast_sign_pre_compute(pc) == 1) {
+			for (i = 0; i < SM2_SIGN_PRE_COMP_COUNT; i++) {
+				if (i) putchar(';');
+				sm2_z256_to_bytes(pc[i].k, b); puthex(b, 32); putchar(','); sm2_z256_to_bytes(pc[i].x1_modn, b); puthex(b, 32);
+			}
+			printf(" %04lx", ent.draws);
+		} else printf("ERR");
+		drop_entropy(); free(pc);
+	}
 	else printf("ERR unknown-op");
 }
 
